@@ -89,6 +89,7 @@ func c8Program(cell c8Cell) (src, stdin string, pre map[string]string, expOut st
 	v := cell.value
 	pre = map[string]string{}
 	var sb strings.Builder
+	hoisted := "" // function definitions an origin needs (top level only)
 	obtain := func(name string) string {
 		switch cell.origin {
 		case "literal-direct":
@@ -103,6 +104,13 @@ func c8Program(cell c8Cell) (src, stdin string, pre map[string]string, expOut st
 		case "stdin":
 			stdin += v + "\n"
 			return name + " := input()\n"
+		case "stdin-prompt":
+			stdin += v + "\n"
+			return name + " := input(" + tsQuote(c8Prompt) + ")\n"
+		case "stdin-function":
+			stdin += v + "\n"
+			hoisted += "func ask" + name + "(p string) string {\n\tr := input(p)\n\treturn r\n}\n"
+			return name + " := ask" + name + "(" + tsQuote(c8Prompt) + ")\n"
 		case "command":
 			pre["in.txt"] = v + "\n"
 			return name + ", e" + name + ", c" + name + " := @cat(\"in.txt\")\n"
@@ -119,7 +127,7 @@ func c8Program(cell c8Cell) (src, stdin string, pre map[string]string, expOut st
 		if strings.HasSuffix(v, "\n") {
 			return "", "", nil, "", nil, false // command substitution / read strip trailing newlines by definition
 		}
-	case "stdin":
+	case "stdin", "stdin-prompt", "stdin-function":
 		if strings.Contains(v, "\n") {
 			return "", "", nil, "", nil, false // input() reads one line
 		}
@@ -192,7 +200,7 @@ func c8Program(cell c8Cell) (src, stdin string, pre map[string]string, expOut st
 	default:
 		return "", "", nil, "", nil, false
 	}
-	src = sb.String()
+	src = hoisted + sb.String()
 	if cell.origin == "literal-direct" {
 		switch cell.path {
 		case "subscript", "range-string", "return":
@@ -210,7 +218,10 @@ var reVarXW = regexp.MustCompile(`\b[xw]\b`)
 var c8Hostile = []string{"$(touch CANARY)", "`touch CANARY`", "$HOME", "${x}", "$x", "*", "?", "[a]", "~", "{a,b}", "-n", "-e", "-E", "--", "-", "a  b", " lead", "trail ", "a;b", "a&b", "a|b", ">f", "<f", "\"", "'", "\\", "\\n", "a\\", "!", "!!", "#c", "a #c", "%s", "%d", "$(", "$((1+1))", "\"; touch CANARY; \"", "x\" y", "$1", "$@", "$?", "&&", "||", "(", ")", "=", "a=b"}
 
 var c8Paths = []string{"sink", "print", "print-two", "assign", "concat-left", "concat-right", "compare", "argument", "argument-second", "return", "slice-literal", "slice-assign", "slice-param", "range-slice", "range-string", "subscript", "len", "write", "switch"}
-var c8Origins = []string{"literal", "literal-direct", "raw-literal", "file", "stdin", "command"}
+var c8Origins = []string{"literal", "literal-direct", "raw-literal", "file", "stdin", "stdin-prompt", "stdin-function", "command"}
+
+// c8Prompt is the prompt of input(prompt); wherever it is shown it is not part of the value (execCase.IgnoreToken).
+const c8Prompt = "Q7Z ask> "
 
 func c8Run(cell c8Cell) (execCase, execOutcome, bool) {
 	src, stdin, pre, expOut, expFS, ok := c8Program(cell)
@@ -220,6 +231,9 @@ func c8Run(cell c8Cell) (execCase, execOutcome, bool) {
 	c := execCase{Kind: "bash-run", Property: "C08", Files: map[string]string{"main.tsh": src}, Main: "main.tsh", Stdin: stdin, Pre: pre,
 		ExpectStdout: expOut, ExpectStatus: 0, ExpectFS: expFS, CheckFS: true, Env: []string{"PATH=/usr/bin:/bin"},
 		Note: fmt.Sprintf("path=%s origin=%s value=%q", cell.path, cell.origin, cell.value)}
+	if strings.HasPrefix(cell.origin, "stdin-") {
+		c.IgnoreToken = c8Prompt
+	}
 	return c, runExecCase(c), true
 }
 
@@ -354,7 +368,7 @@ func TestC08(t *testing.T) {
 		// The random search stays out of that region (counted); the matrix keeps covering it cell by cell.
 		if (origin == "literal" || origin == "literal-direct" || origin == "raw-literal") && strings.ContainsAny(v, "$`\"\\") {
 			r.Class("excluded:C08-literal-interpolation")
-			origin = []string{"file", "command", "stdin"}[gen.Uniform(0, 2).Draw(t, "runtime-origin")]
+			origin = []string{"file", "command", "stdin", "stdin-prompt", "stdin-function"}[gen.Uniform(0, 4).Draw(t, "runtime-origin")]
 		}
 		cell := c8Cell{path: path, origin: origin, value: v}
 		c, out, ok := c8Run(cell)
